@@ -8,6 +8,8 @@ pub mod c14;
 pub mod c15;
 pub mod c16;
 pub mod c17;
+pub mod c18;
+pub mod c20;
 pub mod semantic;
 pub mod semprops;
 
@@ -30,6 +32,8 @@ pub fn by_id(id: &str) -> Option<Box<dyn Property>> {
         "C14" => Some(Box::new(c14::C14)),
         "C16" => Some(Box::new(c16::C16)),
         "C17" => Some(Box::new(c17::C17)),
+        "C18" => Some(Box::new(c18::C18)),
+        "C20" => Some(Box::new(c20::C20)),
         "C19" => Some(Box::new(c17::C19)),
         "C07" => Some(Box::new(c07::C07)),
         "C08" => Some(Box::new(c08::C08)),
